@@ -165,6 +165,24 @@ pub fn gen_parse(run: &mut Run, seed: u64, thorough: bool) {
             for sq in seqs {
                 check_parse(&mut sc, format!("Noise_{p}{}_25519_AESGCM_SHA512", sq.join("+")).as_bytes());
             }
+            // long lists (7 .. 14 fields): all distinct and valid; with a bad, duplicate or empty field at the end or in
+            // the middle (a parser that looks only at the first few fields accepts those)
+            let distinct: Vec<String> = (0..14).map(|i| if i == 5 { "fallback".to_string() } else { format!("psk{i}") }).collect();
+            for n in 7..=14usize {
+                let base: Vec<String> = distinct[..n].to_vec();
+                let mut variants: Vec<Vec<String>> = vec![base.clone()];
+                for bad in ["bogus", "psk256", "Fallback", "psk0", "", "pskx", "é"] {
+                    let mut v = base.clone();
+                    v.push(bad.to_string());
+                    variants.push(v);
+                    let mut v = base.clone();
+                    v.insert(n - 1, bad.to_string());
+                    variants.push(v);
+                }
+                for v in variants {
+                    check_parse(&mut sc, format!("Noise_{p}{}_25519_AESGCM_SHA512", v.join("+")).as_bytes());
+                }
+            }
             run.add("parse", format!("modifier sequences {p}"), sc);
         }
     }
@@ -209,6 +227,13 @@ pub fn gen_parse(run: &mut Run, seed: u64, thorough: bool) {
                         check_parse(&mut sc, &v);
                     }
                 }
+            }
+            // always: a NUL, a space, a '+' and a '_' inserted here (a lookup keyed on packed bytes loses leading NULs)
+            for a in [[0u8], [0x20u8], [0x2bu8], [0x5fu8]] {
+                let mut v = bb[..pos].to_vec();
+                v.extend_from_slice(&a);
+                v.extend_from_slice(&bb[pos..]);
+                check_parse(&mut sc, &v);
             }
             let picks = if thorough { alphabet.len() } else { 4 };
             for _ in 0..picks {
@@ -540,8 +565,12 @@ pub fn gen_build(run: &mut Run, seed: u64, thorough: bool) {
 /// lists the parser never produces. Built for both roles and run with generous buffers; compared with the model only.
 pub fn gen_handmods(run: &mut Run, seed: u64) {
     let mut r = Rng64(seed ^ 0x686d6f6473);
-    let lists = ["psk0,psk0", "psk1,psk0", "psk0,psk1,psk0", "psk2,psk2", "fallback", "psk0,fallback", "psk9", "psk255", "psk1,psk1,psk1", "-"];
-    for (pi, p) in ["NN", "XX", "IK", "N", "X1X1"].iter().enumerate() {
+    let lists = [
+        "psk0,psk0", "psk1,psk0", "psk0,psk1,psk0", "psk2,psk2", "fallback", "psk0,fallback", "psk9", "psk255", "psk1,psk1,psk1", "-",
+        "psk2,psk2,psk2,psk2,psk2,psk2", "psk0,psk1,psk0,psk1,psk0,psk1,psk0", "psk1,psk1,psk1,psk1,psk1,psk1,psk1,psk1,psk1,psk1",
+        "psk0,psk0,psk0,psk0,psk0,psk0,psk0,psk0,psk0,psk0,psk0,psk0", "psk2,psk1,psk0,psk2,psk1,psk0,psk2,psk1,psk0",
+    ];
+    for (pi, p) in ["NN", "XX", "IK", "N", "X1X1", "KX", "IX"].iter().enumerate() {
         for (li, l) in lists.iter().enumerate() {
             let mut sc = Sc::new();
             sc.ex.comment(&format!("hand-built modifier list {l} on {p}"));
